@@ -52,6 +52,14 @@ def hasTriple : Str → Bool
 
 def trailingQuoteRun (t : Str) : Nat := (t.reverse.takeWhile (· = '\'')).length
 
+/-- the text ends with a `'''` that `prepare_text_for_dbml` escapes as one chunk `\'''` (leftmost
+    matching): its two unescaped quotes then touch the closing `'''` of a multi-line literal -/
+def endsTriple : Str → Bool
+  | '\'' :: '\'' :: '\'' :: [] => true
+  | '\'' :: '\'' :: '\'' :: r => endsTriple r
+  | _ :: r => endsTriple r
+  | [] => false
+
 /-- Why text `t` at site `s` is outside the domain on which the DBML round trip is claimed
     (`none` = inside).  Mirrors `harness/sites.py:site_reason`; the two are compared on every run. -/
 def siteReason (s : Site) (t : Str) : Option String :=
@@ -71,7 +79,7 @@ def siteReason (s : Site) (t : Str) : Option String :=
                       || (splitNL t).all (fun l => l.all (· = ' '))) then
       some "WhitespaceOnlyLine"
     else if !multi && hasTriple t then some "TripleQuote"
-    else if multi && trailingQuoteRun t ≥ 3 && trailingQuoteRun t % 3 = 0 then some "TripleQuote"
+    else if multi && endsTriple t then some "TripleQuote"
     else none
 
 end PyDBML
